@@ -36,6 +36,8 @@ def collect(ids):
 
 
 def run_one(pid, patch, label, tier='quick'):
+    if '.thorough.' in os.path.basename(patch):
+        tier = 'thorough'     # this change only manifests inside the deeper bounds
     tmp = tempfile.mkdtemp(prefix='symx_mut_')
     try:
         shutil.copytree(os.path.join(REPO, 'elfi'), os.path.join(tmp, 'elfi'),
